@@ -1585,6 +1585,10 @@ class SuccessionDiagram:
 
         sub_spaces: list[BooleanSpace]
 
+        # The solver always reports at least one solution, so a limit below one
+        # cannot be distinguished from a limit of one.
+        motif_limit = max(1, self.config["max_motifs_per_node"])
+
         # Only use the percolated PN if it is already known.
         pn = node["percolated_petri_net"]
         if pn is not None:
@@ -1594,7 +1598,7 @@ class SuccessionDiagram:
                 pn,
                 problem="max",
                 optimize_source_variables=source_nodes,
-                solution_limit=self.config["max_motifs_per_node"],
+                solution_limit=motif_limit,
             )
             sub_spaces = [(s | current_space) for s in partial_sub_spaces]
         else:
@@ -1605,7 +1609,7 @@ class SuccessionDiagram:
                 problem="max",
                 ensure_subspace=current_space,
                 optimize_source_variables=source_nodes,
-                solution_limit=self.config["max_motifs_per_node"],
+                solution_limit=motif_limit,
             )
 
         # Release the Petri net once the sub_spaces are computed.
@@ -1614,7 +1618,7 @@ class SuccessionDiagram:
         # in memory.
         node["percolated_petri_net"] = None
 
-        if len(sub_spaces) == self.config["max_motifs_per_node"]:
+        if len(sub_spaces) >= motif_limit:
             raise RuntimeError(
                 f"Exceeded the maximum amount of stable motifs per node ({self.config['max_motifs_per_node']}; see `SuccessionDiagramConfiguration.max_motifs_per_node`)."
             )
